@@ -211,12 +211,12 @@ def h_cdda(f0: int, df: int, tail: int, last: int, cut: int, k: int) -> int:
 # ------------------------------------------------------------------ whole AKAI image cut at a solver-chosen position (decision tree; concrete per path)
 def h_image(sector: int, off_i: int, order: int) -> int:
     """
-    pre: 0 <= sector <= 10 and 0 <= off_i <= 7 and 0 <= order <= 1
+    pre: 0 <= sector <= 13 and 0 <= off_i <= 7 and 0 <= order <= 1
     post: _ == 1
     """
     CNT[0] += 1
     from vf.util import conc, untraced
-    sector, off_i, order = conc(sector, 0, 10), conc(off_i, 0, 7), conc(order, 0, 1)
+    sector, off_i, order = conc(sector, 0, 13), conc(off_i, 0, 7), conc(order, 0, 1)
     with untraced():
         import io
         import struct
@@ -231,7 +231,10 @@ def h_image(sector: int, off_i: int, order: int) -> int:
         files = [("AAA", 0x73, sf("AAA", words(6000, 1)), [1, 0] if order else None), ("BBB", 0xf3, sf("BBB", words(60, 2)), None),
                  ("CCC -L", 0x73, sf("CCC -L", words(300, 3)), None), ("CCC -R", 0x73, sf("CCC -R", words(300, 4)), None)]
         lay = {}
-        img = akaiw.partition([("VOL", files, None)], size_sectors=16, layout=lay)
+        # a second volume behind the first one's files: its directory sector lies AFTER them, so that cuts fall between the data of volume 1
+        # and the directory of volume 2 (seed C15c)
+        files2 = [("DDD", 0x73, sf("DDD", words(200, 5)), None)]
+        img = akaiw.partition([("VOL", files, None), ("VOL2", files2, None)], size_sectors=16, layout=lay)
         full = dict(c16._do(actions.determine_image_type(io.BufferedReader(io.BytesIO(img))), ("export", None))[1])
         cut = sector * 8192 + (0, 1, 50, 139, 140, 141, 4096, 8191)[off_i]
         try:
@@ -241,8 +244,9 @@ def h_image(sector: int, off_i: int, order: int) -> int:
             got = None                                   # export ended with an error: nothing (more) is reported ...
         # ... but a file whose directory entry, header and data sectors all lie before the cut must have been exported complete
         end = lambda *fn: 1 + max(s for f in fn for s in lay[("VOL", f)])                     # first sector after the files' data (from the writer's layout)
-        extent = {"out/A/VOL/AAA.wav": end("AAA"), "out/A/VOL/BBB.wav": end("BBB"), "out/A/VOL/CCC.wav": end("CCC -L", "CCC -R")}
-        if sorted(extent.values()) != [7, 8, 10]:
+        extent = {"out/A/VOL/AAA.wav": end("AAA"), "out/A/VOL/BBB.wav": end("BBB"), "out/A/VOL/CCC.wav": end("CCC -L", "CCC -R"),
+                  "out/A/VOL2/DDD.wav": 1 + max(lay[("VOL2", "DDD")])}
+        if sorted(extent.values()) != [7, 8, 10, 13] or lay[("VOL2", None)] != [10]:
             raise AssertionError("harness: layout of the written image is not the one the cut positions were chosen for")
         for path, end_sector in extent.items():
             if cut >= end_sector * 8192:
@@ -372,10 +376,10 @@ def obligations(tier, seed):
         obs.append(ob(f"C15.cdda/last={last}", "h_cdda", [f"last == {last}"], "cut position, track geometry, byte index", "tracks of 1..3 sectors, tail <= 5000", ["AbsFile/Spans"]))
     for order in (0, 1):
         obs.append(ob(f"C15.image/akai/order={order}", "h_image", [f"order == {order}"], "cut sector and offset inside it", "9 sectors x 8 offsets; volume of 3 samples incl. an L/R pair",
-                      ["independent AKAI writer", "in-memory export"]))
+                      ["independent AKAI writer", "export to a temporary directory, read back"]))
     for perm in (0, 1):
         obs.append(ob(f"C15.image/roland/perm={perm}", "h_image_roland", [f"perm == {perm}"], "cut cluster and offset inside it", "7 clusters x 6 offsets; 3 samples (one stored in reverse cluster order, one reverse-played)",
-                      ["independent S-770 writer", "in-memory export"]))
+                      ["independent S-770 writer", "export to a temporary directory, read back"]))
     for o in c13.obligations(tier, seed):
         if o["name"] == "C13.scan":
             obs.append(dict(o, name="C15.scan"))
